@@ -170,9 +170,10 @@ def canon(node, defs, keep=(), _depth=0, _seen=frozenset(), commutative_mult=Tru
             return "nz(%s)" % c(node.args[0])
         if isinstance(f, ast.Attribute) and f.attr in ("flatten", "ravel") and not node.args and _np_call(f.value, "argwhere", 1):
             return "nz(%s)" % c(f.value.args[0])
-        if isinstance(f, ast.Attribute) and f.attr in STRIP_METHODS and "ravel" != f.attr:
+        is_np_func = isinstance(f, ast.Attribute) and isinstance(f.value, ast.Name) and f.value.id in ("_np", "np", "numpy")
+        if isinstance(f, ast.Attribute) and f.attr in STRIP_METHODS and "ravel" != f.attr and not is_np_func:
             return c(f.value)
-        if isinstance(f, ast.Attribute) and f.attr == "ravel":
+        if isinstance(f, ast.Attribute) and f.attr == "ravel" and not is_np_func and not node.args and not node.keywords:
             return c(f.value) + ".ravel()"
         fname = unparse(f)
         if fname.split(".")[-1] in STRIP_FUNCS and fname.split(".")[0] in ("_np", "np", "numpy") and node.args:
